@@ -93,6 +93,76 @@ class C13(fw.Prop):
                         note += f" !from_bytes-addresses:{got}"
                 return f"ok {dl} {opt(dp)} {dn} {sl} {opt(sp)} {sn}" + note
             return fw.Case(f"addr find {wire.hex()}", impl, "prop", d, tags=("inframe-" + kind,))
+        if op == "viaconn":
+            # the meter's frame (UA answering SNRM, then an information frame) arrives at a real HdlcConnection, whole or byte by
+            # byte; the frame the connection delivers names the same two stations.  (An address byte can equal the flag 0x7E.)
+            from harness.props.c18 import crc_x25
+            srv, cl, step = tuple(d["srv"]), tuple(d["cl"]), d["step"]
+            sb, cb = self.spec_bytes(*srv), self.spec_bytes(*cl)
+
+            def wire_of(ctrl, info):
+                n = 2 + len(cb) + len(sb) + 1 + 2 + len(info) + 2
+                head = (0xA000 | n).to_bytes(2, "big") + cb + sb + bytes([ctrl])
+                body = head + crc_x25(head) + info
+                return b"\x7e" + body + crc_x25(body) + b"\x7e"
+            ua, iframe = wire_of(0x73, b""), wire_of(0x30, b"\xe6\xe7\x00\xc4\x01")
+
+            def impl():
+                from dlms_cosem.hdlc import frames, state as hstate
+                from dlms_cosem.hdlc.address import HdlcAddress
+                from dlms_cosem.hdlc.connection import HdlcConnection
+                server, client = HdlcAddress(srv[1], srv[2], "server"), HdlcAddress(cl[1], None, "client")
+                conn = HdlcConnection(server, client)
+
+                def deliver(data):
+                    got = None
+                    pieces = [data] if step == 0 else [data[i:i + step] for i in range(0, len(data), step)]
+                    for piece in pieces:
+                        conn.receive_data(piece)
+                        for _ in range(len(data) + 2):
+                            ev = conn.next_event()
+                            if ev is not hstate.NEED_DATA:
+                                got = ev
+                                break
+                            if conn.buffer.find(b"\x7e", conn.buffer_search_position) < 0:
+                                break
+                        if got is not None:
+                            break
+                    return got
+                out = []
+                conn.send(frames.SetNormalResponseModeFrame(server, client))
+                f1 = deliver(ua)
+                if f1 is not None:
+                    conn.send(frames.InformationFrame(server, client, b"\xe6\xe6\x00\xc0\x01", send_sequence_number=0, receive_sequence_number=0))
+                f2 = deliver(iframe) if f1 is not None else None
+                for f in (f1, f2):
+                    if f is None:
+                        return "ok never-delivered"
+                    dd, ss = f.destination_address, f.source_address
+                    out.append(f"{dd.logical_address} {opt(dd.physical_address)} {len(dd.to_bytes())} {ss.logical_address} {opt(ss.physical_address)} {len(ss.to_bytes())}")
+                if out[0] != out[1]:
+                    return "ok " + out[0] + " !information-frame-names:" + out[1]
+                return "ok " + out[0]
+            return fw.Case(f"addr find {ua.hex()}", impl, "prop", d, tags=("via-connection",))
+        if op == "typename":
+            # other spellings of the address type: refused, or - if the library takes them - the address is the client / server
+            # address it says, in the standard form
+            t, l, p, spelled = d["t"], d["l"], d["p"], d["spelled"]
+            want = self.spec_bytes(t, l, p)
+
+            def impl():
+                from dlms_cosem.hdlc.address import HdlcAddress
+                try:
+                    a = HdlcAddress(l, p, spelled)
+                    out = a.to_bytes()
+                except ValueError:
+                    return "ok typename"
+                if want is None:
+                    return f"ok typename !accepted-an-address-without-standard-form:{spelled}:{l}:{p}:{bytes(out).hex()}"
+                if bytes(out) != want:
+                    return f"ok typename !written-as:{bytes(out).hex()}"
+                return "ok typename"
+            return fw.Case("echo typename", impl, "prop", d, tags=("type-spelling",))
         if op == "client":
             # the addresses as they leave a client built with DlmsClient.with_serial_hdlc_transport (serial port faked):
             # the SNRM it writes carries the configured server and client addresses
@@ -184,6 +254,22 @@ class C13(fw.Prop):
                 dst, src = (srv, cl) if to_meter else (cl, srv)
                 odst, osrc = (other_srv, other_cl) if to_meter else (other_cl, other_srv)
                 yield mk({"op": "inframe", "kind": kind, "dst": dst, "src": src, "odst": odst, "osrc": osrc})
+        # through a real connection (whole and byte by byte), with stations whose address bytes contain 0x7E
+        flaggy = [("s", 63, 17), ("s", 63, 0), ("s", 63, 127), ("s", 8064, 300), ("s", 8100, 5), ("s", 191, 1), ("s", 200, 8064), ("s", 5, 8191),
+                  ("s", 8127, 8127), ("s", 63, None), ("s", 16383, 8063 + 128)]
+        for srv in flaggy + servers:
+            for step in (0, 1, 3):
+                yield mk({"op": "viaconn", "srv": srv, "cl": ("c", rng.choice([1, 16, 63, 127]), None), "step": step})
+        for srv in flaggy:
+            for kind in ("snrm", "disc", "ua", "rr", "i"):
+                cl = ("c", rng.choice([1, 16, 63]), None)
+                dst, src = (srv, cl) if kind in ("snrm", "disc") else (cl, srv)
+                yield mk({"op": "inframe", "kind": kind, "dst": dst, "src": src, "odst": dst, "osrc": src})
+        for spelled, t in (("Server", "s"), ("SERVER", "s"), ("Client", "c"), ("CLIENT", "c"), (" server", "s"), ("server ", "s"), ("cLIENT", "c")):
+            for l, p in ((1, 17), (100, None), (200, None), (128, None), (16383, None), (200, 5), (127, None), (128, 0), (16, None), (0, None), (16384, 1)):
+                if t == "c" and p is not None:
+                    continue
+                yield mk({"op": "typename", "t": t, "l": l, "p": p, "spelled": spelled})
         for cl, sl, sp in ((16, 1, 17), (1, 1, None), (16, 1, 0), (127, 127, 127), (16, 200, 5), (16, 5, 200), (16, 16383, 16383)):
             yield mk({"op": "client", "client": cl, "sl": sl, "sp": sp})
         for _ in range(20000 if deep else 1500):
